@@ -92,6 +92,13 @@ def scen_real_pass(rng, which):
             'external': ext}
 
 
+def scen_order(rng, N):
+    """an earlier candidate whose test is slow but interesting, a later one that is fast and interesting: the earlier must win"""
+    return {'name': f'order-N{N}', 'tree': {'a.c': {'text': '// WASSLOW\nSLOWLINE\nB\nkeep1\n'}}, 'test_cases': ['a.c'],
+            'predicate': 'grep -q keep1 a.c && grep -q WASSLOW a.c && (grep -q SLOWLINE a.c || grep -q "^B" a.c)',
+            'groups': {'first': [], 'main': [{'name': 'LinePass'}], 'last': []}, 'N': N, 'timeout': 10, 'mode': 'pass'}
+
+
 def scen_dotdot(rng):
     """F10: a test case given with a `..` component"""
     return {'name': 'dotdot', 'tree': {'keep': {'text': 'k'}, '../x.c': {'text': 'a\nb\nc\nd\n'}}, 'test_cases': ['../x.c'],
